@@ -298,6 +298,19 @@ func cmdCheck(args []string, writeLedger bool) {
 			byName[o.Name] = o
 		}
 	}
+	var known []KnownFinding
+	if kb, err := os.ReadFile(filepath.Join(root, "known_findings.json")); err == nil {
+		_ = json.Unmarshal(kb, &known)
+	}
+	knownBy := map[string]KnownFinding{}
+	for _, k := range known {
+		if k.Kind == "known" && k.Property == prop {
+			knownBy[k.Obligation] = k
+			if o := byName[k.Obligation]; o != nil {
+				o.Known = true
+			}
+		}
+	}
 	DischargeAll(all, scratch, timeout, 16)
 
 	ledgerPath := filepath.Join(root, "ledger", prop+".json")
@@ -332,16 +345,6 @@ func cmdCheck(args []string, writeLedger bool) {
 	unprovedAtBaseline := map[string]bool{}
 	for _, n := range lg.Unproved {
 		unprovedAtBaseline[n] = true
-	}
-	var known []KnownFinding
-	if kb, err := os.ReadFile(filepath.Join(root, "known_findings.json")); err == nil {
-		_ = json.Unmarshal(kb, &known)
-	}
-	knownBy := map[string]KnownFinding{}
-	for _, k := range known {
-		if k.Kind == "known" && k.Property == prop {
-			knownBy[k.Obligation] = k
-		}
 	}
 	discharged := 0
 	inLedger := map[string]bool{}
